@@ -39,11 +39,13 @@ fn ptr_to_bytes_method(_ctx: &Context, input: &DeriveInput) -> TokenStream {
             assert!(!struct_data.fields.is_empty());
             let last_ty = &struct_data.fields.iter().enumerate().last().unwrap().1.ty;
             quote! {
-                use ::flatty::utils::mem::{offset_slice_ptr_start, cast_wide_ptr_with_offset};
-                offset_slice_ptr_start(
+                use ::flatty::utils::{ceil_mul, mem::{offset_slice_ptr_start, cast_wide_ptr_with_offset, set_slice_ptr_len, slice_ptr_len}};
+                let __flatty_bytes = offset_slice_ptr_start(
                     <#last_ty as FlatUnsized>::ptr_to_bytes(cast_wide_ptr_with_offset!(#last_ty, this, Self::LAST_FIELD_OFFSET as isize)),
                     -(Self::LAST_FIELD_OFFSET as isize),
-                )
+                );
+                // Include the trailing padding, so that the bytes map back to the same value.
+                set_slice_ptr_len(__flatty_bytes, ceil_mul(slice_ptr_len(__flatty_bytes), Self::ALIGN))
             }
         }
         Data::Enum(..) => quote! {
